@@ -81,11 +81,42 @@ def x6_class(model, nf):
     return None
 
 
+def x7_class(model, a, b):
+    """X7: dimensionless (Number-dimension) units whose total exponent differs between
+    the two sides (e.g. degree*m -> m): the planner drops the unmatched factor
+    instead of converting it to One."""
+    def total(nf):
+        return sum(e for t, e in nf[1] if model.base_dim[t] == ())
+    if total(a) != total(b):
+        return "X7-unbalanced-dimensionless"
+    return None
+
+
+def x8_class(model, a, b):
+    """X8: both sides contain derived-dimension factors, grouped differently, and at
+    least one of them has no declared expansion into a compound: the greedy
+    matcher of the planner may strand (AssertionError instead of
+    ConversionNotFound), depending on the order it tries dimensions in."""
+    declared = getattr(model, "compound_declared", None)
+    if declared is None:
+        return None
+
+    def derived(nf):
+        return sorted((model.base_dim[t], e) for t, e in nf[1] if M.d_degree(model.base_dim[t]) > 1)
+    da, db = derived(a), derived(b)
+    if not da or not db or da == db:
+        return None
+    if any(M.d_degree(model.base_dim[t]) > 1 and t not in declared for t, _ in list(a[1]) + list(b[1])):
+        return "X8-regrouped-unexpanded-derived"
+    return None
+
+
 def pair_class(model, a, b):
     if a == b:
         return None
     return (region_class(model, a) or region_class(model, b)
-            or x6_class(model, a) or x6_class(model, b))
+            or x6_class(model, a) or x6_class(model, b)
+            or x7_class(model, a, b) or x8_class(model, a, b))
 
 
 class GenB:
@@ -297,6 +328,57 @@ class GenB:
             return None
         return nf
 
+    def regroup_target(self, src):
+        """A target of equal dimension that groups it differently: derived-dimension
+        units (positive-only dimensions, positive powers) are subtracted greedily
+        while they fit, the rest is filled with fundamental units
+        (e.g. length^2 area^2 <-> volume^2)."""
+        rng = self.rng
+        d = self.model.dim_of(src)
+        if not d or any(x < 0 for x in d):
+            return None
+        rem = list(d)
+        items = []
+        ders = [t for t in self.unit_ref
+                if M.d_degree(self.model.base_dim[t]) > 1 and all(x >= 0 for x in self.model.base_dim[t])]
+        rng.shuffle(ders)
+        for t in ders[:3]:
+            dt = self.model.base_dim[t]
+            k = 0
+            while len(dt) <= len(rem) and all(rem[i] >= dt[i] for i in range(len(dt))) and k < 3 and rng.random() < 0.8:
+                for i in range(len(dt)):
+                    rem[i] -= dt[i]
+                k += 1
+            if k:
+                items.append((t, k))
+        ex = self.expansion(M.d_norm(rem)) if any(rem) else ((), ())
+        if ex is None:
+            return None
+        nf = (self.random_prefix() if rng.random() < 0.3 else (), M.f_norm(items + list(ex[1])))
+        if len(nf[1]) > 3 or any(abs(e) > 3 for _, e in nf[1]) or not nf[1]:
+            return None
+        return nf
+
+    def product_definition(self, t):
+        """Declare a fundamental-dimension unit in terms of a product involving a derived
+        unit (like light-year = c * year):  t = r * (derived * fundamental^k ...)."""
+        rng = self.rng
+        d = self.model.base_dim[t]
+        ders = [u for u in self.unit_ref if M.d_degree(self.model.base_dim[u]) > 1 and self.decl_count.get(u)]
+        rng.shuffle(ders)
+        for u in ders:
+            rest = M.d_div(d, self.model.base_dim[u])
+            if M.d_degree(rest) > 3:
+                continue
+            ex = self.expansion(rest) if rest else ((), ())
+            if ex is None:
+                continue
+            nf = ((), M.f_norm([(u, 1)] + list(ex[1])))
+            if len(nf[1]) < 2:
+                continue
+            return self.emit_declare(t, nf)
+        return False
+
     def contraction_pair(self):
         """source = compound of fundamental units, target = named derived unit (^k)."""
         rng = self.rng
@@ -325,7 +407,7 @@ class GenB:
                 src = self.shape()
                 if src is None:
                     return None
-                dst = self.target_for(src)
+                dst = self.regroup_target(src) if self.rng.random() < 0.2 else self.target_for(src)
                 if dst is None:
                     continue
             if src == dst and self.rng.random() < 0.9:
@@ -538,6 +620,8 @@ class GenB:
                         if not pending_defs:
                             decl_queue.remove(t)
                         continue
+                elif M.d_degree(d) == 1 and rng.random() < 0.15 and self.product_definition(t):
+                    self.probe_product_defined = True
                 else:
                     same = [x for x in self.by_dim.get(d, []) if x != t]
                     if same:
